@@ -121,6 +121,7 @@ class ExecRun:
             # without the parents filter. These are queries: they must not change what the executor does next.
             from eudoxia.workload.runtime_status import ASSIGNABLE_STATES
             for p in self.w.pipes:
+                p.to_dict()
                 p.runtime_status().get_ops(ASSIGNABLE_STATES, require_parents_complete=False)
                 p.runtime_status().get_ops(ASSIGNABLE_STATES, require_parents_complete=True)
         try:
@@ -631,6 +632,35 @@ def gen_over_susp(rng, gen='G-exec-over-susp'):
         ent = run.step(t)
         if ent['err'] or not (ent['pools'][0]['active'] or ent['pools'][0]['suspending']):
             break
+    return cfg, run
+
+
+def gen_decimal_fill(rng, gen='G-exec-decimal-fill'):
+    """one pool whose free RAM is handed out in one batch of 2-4 assignments with DECIMAL sizes (one decimal place) that
+    add up to the pool exactly in decimal arithmetic; their float sum may differ from the float capacity in the last
+    place, so the batch is accepted or refused as the code's own comparison says, and an ACCEPTED batch must create one
+    container per assignment. Outside the model's domain (non-dyadic RAM): monitor only."""
+    tps = rng.choice([1, 10])
+    cap = rng.choice([4, 8, 10, 16])
+    k = rng.randint(2, 4)
+    tenths = cap * 10
+    cuts = sorted(rng.sample(range(1, tenths), k - 1))
+    parts = [b - a for a, b in zip([0] + cuts, cuts + [tenths])]
+    rams = [p_ / 10.0 for p_ in parts]
+    pipes = [(rng.choice([1, 2, 3]), [[]]) for _ in range(k)]
+    segs = [[[dict(baseline_cpu_seconds=float(rng.randint(1, 4)) / tps, cpu_scaling='const', storage_read_gb=0.0,
+                   memory_gb=0.0625)]] for _ in range(k)]
+    cfg = dict(gen=gen, tps=tps, over=0, multi=1, npools=1, cpu=16, ram=cap, pipes=pipes, segs=segs, ticks=[], bad=None)
+    run = ExecRun(cfg)
+    t0 = dict(susp=[], asg=[([j], 1, rams[j], pipes[j][0], 0) for j in range(k)])
+    cfg['ticks'].append(t0)
+    ent = run.step(t0)
+    for _ in range(8):
+        if ent['err']:
+            break
+        t = dict(susp=[], asg=[])
+        cfg['ticks'].append(t)
+        ent = run.step(t)
     return cfg, run
 
 
